@@ -404,4 +404,3 @@ func MirrorTolerant(start string, events []string) string {
 	sort.Strings(ss)
 	return "[" + strings.Join(ss, " ") + "]"
 }
-
